@@ -12,12 +12,21 @@
   Main results
     zkp_complete, zkp2_complete, zkp4_complete          honest proofs verify (bases = powers of g)
     zkp2_complete_subgroup, zkp4_complete_subgroup      same for arbitrary bases h with h^q ≡ 1 (mod p)
+    isExponent_iff, isExponent_subModQ_iff              the range check 1 ≤ d < q of the repaired code; an
+                                                        honest d = r - a·c mod q is always < q
     smp_honest_run                                      core: an honest run with secrets x (initiator),
                                                         y (responder): no panic, explicit discrete logs
-                                                        of the 10 transmitted elements, all verifications
-                                                        pass, both success tests decide g^(Mx) = g^(My),
-                                                        M = a2·b2·a3·b3
-    c11_equal_success (_v2, _v3)                        x = y ⇒ success on both sides
+                                                        of the 10 transmitted elements, the 10 transmitted
+                                                        proof exponents are < q, all verifications pass
+                                                        PROVIDED these exponents are nonzero, both success
+                                                        tests decide g^(Mx) = g^(My), M = a2·b2·a3·b3
+    c11_equal_success (_v2, _v3)                        x = y (+ transmitted proof exponents ≠ 0, which
+                                                        excludes a probability-2^-1535 event in which the
+                                                        library, like libotr, rejects an honest message)
+                                                        ⇒ success on both sides
+    c12_exponent_out_of_range_rejected_1..4             a received exponent outside [1, q) ⇒ smpNVerify
+    c12_exponent_plus_q_rejected_1..4, _zero_           returns false (message 3: `.ok false`, no panic);
+    smpNVerify_exponents                                in particular d ↦ d + q and d = 0
     c11_unequal_fail                                    x ≠ y (+ hp, hqp, exponents ≠ 0 mod q) ⇒ failure
                                                         on both sides
     divModP_spec, divModP_panic_iff                     what divModP computes / when it panics
@@ -133,6 +142,32 @@ theorem subModQ_lt (r s : Nat) : subModQ r s < dhQ := by
   have := Int.emod_lt_of_pos ((r : Int) - s) hq
   have h0 := Int.emod_nonneg ((r : Int) - s) hq.ne'
   omega
+
+/-! ## The exponent range check `isExponent` (1 ≤ d < q) of the repaired code -/
+
+theorem isExponent_iff (d : Nat) : isExponent d = true ↔ 1 ≤ d ∧ d < dhQ := by
+  unfold isExponent
+  rw [Bool.and_eq_true, decide_eq_true_iff, decide_eq_true_iff]
+
+theorem isExponent_eq_false_iff (d : Nat) : isExponent d = false ↔ d = 0 ∨ dhQ ≤ d := by
+  rw [← Bool.not_eq_true, isExponent_iff]
+  omega
+
+theorem isExponent_zero : isExponent 0 = false :=
+  (isExponent_eq_false_iff 0).mpr (Or.inl rfl)
+
+/-- every representative `d + q`, `d + 2q`, … of an exponent is rejected -/
+theorem isExponent_add_dhQ (d : Nat) : isExponent (d + dhQ) = false :=
+  (isExponent_eq_false_iff _).mpr (Or.inr (Nat.le_add_left _ _))
+
+/-- An honestly computed proof exponent `d = r - a·c mod q` is always `< q`, so it passes the range
+check exactly when it is nonzero. -/
+theorem isExponent_subModQ_iff (r s : Nat) : isExponent (subModQ r s) = true ↔ 1 ≤ subModQ r s := by
+  rw [isExponent_iff]
+  exact ⟨fun h => h.1, fun h => ⟨h, subModQ_lt r s⟩⟩
+
+theorem isExponent_subModQ {r s : Nat} (h : 1 ≤ subModQ r s) : isExponent (subModQ r s) = true :=
+  (isExponent_subModQ_iff r s).mpr h
 
 /-- an exponent representing `a - b` modulo q -/
 def subQ (a b : Nat) : Nat := a + (dhQ - b % dhQ)
@@ -318,11 +353,13 @@ end Arith
 theorem smp3Verify_ok_true_iff (K : Crypto) (isGE : Nat → Bool) (s2 : Smp2State) (m : Smp3Msg) :
     smp3Verify K isGE s2 m = .ok true ↔
       (isGE m.pa && isGE m.qa && isGE m.ra) = true ∧
+      (isExponent m.d5 && isExponent m.d6 && isExponent m.d7) = true ∧
       verifyZKP2 K s2.g2 s2.g3 m.d5 m.d6 m.pa m.qa m.cp 6 = true ∧
       ∃ qaqb, divModP K m.qa s2.qb = .ok qaqb ∧
         verifyZKP4 K m.cr s2.g3a m.d7 qaqb m.ra 7 = true := by
   unfold smp3Verify
   cases h1 : (isGE m.pa && isGE m.qa && isGE m.ra) <;>
+  cases he : (isExponent m.d5 && isExponent m.d6 && isExponent m.d7) <;>
   cases h2 : verifyZKP2 K s2.g2 s2.g3 m.d5 m.d6 m.pa m.qa m.cp 6 <;>
   cases h3 : divModP K m.qa s2.qb <;> simp
 
@@ -330,6 +367,13 @@ theorem smp3Verify_ok_true_iff (K : Crypto) (isGE : Nat → Bool) (s2 : Smp2Stat
 def smpTransmitted (s1 : Smp1State) (s2 : Smp2State) (s3 : Smp3State) (m4 : Smp4Msg) : List Nat :=
   [s1.msg.g2a, s1.msg.g3a, s2.msg.g2b, s2.msg.g3b, s2.msg.pb, s2.msg.qb,
    s3.msg.pa, s3.msg.qa, s3.msg.ra, m4.rb]
+
+/-- the zero-knowledge-proof exponents that go over the wire in a complete SMP run (the values the
+receiver range-checks with `isExponent`): message 1 d2, d3; message 2 d2, d3, d5, d6; message 3 d5,
+d6, d7; message 4 d7 -/
+def smpExponents (s1 : Smp1State) (s2 : Smp2State) (s3 : Smp3State) (m4 : Smp4Msg) : List Nat :=
+  [s1.msg.d2, s1.msg.d3, s2.msg.d2, s2.msg.d3, s2.msg.d5, s2.msg.d6,
+   s3.msg.d5, s3.msg.d6, s3.msg.d7, m4.d7]
 
 /-- discrete logarithms (base g = 2, modulo q) of the transmitted group elements of an honest run:
 g2a, g3a, g2b, g3b, Pb, Qb, Pa, Qa, Ra, Rb -/
@@ -343,9 +387,15 @@ variable {K : Crypto} (A : K.ArithOK)
 include A
 
 /-- Core statement about an honest run in which the initiator uses secret `x` and the responder `y`:
-nothing panics, every transmitted group element is a power of the generator, every verification
-passes as soon as the group-membership predicate accepts the transmitted elements, and each side's
-success test decides `g^(a2·b2·a3·b3·x) = g^(a2·b2·a3·b3·y)`. -/
+nothing panics, every transmitted group element is a power of the generator, every transmitted proof
+exponent is `< q`, every verification passes as soon as the group-membership predicate accepts the
+transmitted elements and the ten transmitted proof exponents are nonzero, and each side's success
+test decides `g^(a2·b2·a3·b3·x) = g^(a2·b2·a3·b3·y)`.
+
+The hypothesis `∀ d ∈ smpExponents …, 1 ≤ d` is needed since the repaired code range-checks the
+received exponents (`isExponent`, 1 ≤ d < q): an honest `d = r - a·c mod q` is uniformly distributed
+in [0, q) and equals 0 with probability 1/q ≈ 2^-1535 per exponent; in that event the library (like
+libotr) rejects an honest message.  The hypothesis excludes exactly this event. -/
 theorem smp_honest_run (isGE : Nat → Bool)
     (x y a2 a3 r2 r3 b2 b3 r2' r3' r4 r5 r6 r4' r5' r6' r7 r7' : Nat) :
     let s1 := smp1Gen K a2 a3 r2 r3
@@ -353,7 +403,9 @@ theorem smp_honest_run (isGE : Nat → Bool)
     ∃ s3 m4, smp3Gen K x s1 s2.msg r4' r5' r6' r7 = .ok s3 ∧
       smp4Gen K s2 s3.msg r7' = .ok m4 ∧
       smpTransmitted s1 s2 s3 m4 = (smpTransmittedExps x y a2 a3 b2 b3 r4 r4').map (gexp1 K) ∧
+      (∀ d ∈ smpExponents s1 s2 s3 m4, d < dhQ) ∧
       ((∀ n ∈ smpTransmitted s1 s2 s3 m4, isGE n = true) →
+        (∀ d ∈ smpExponents s1 s2 s3 m4, 1 ≤ d) →
         smp1Verify K isGE s1.msg = true ∧ smp2Verify K isGE s1 s2.msg = true ∧
         smp3Verify K isGE s2 s3.msg = .ok true ∧ smp4Verify K isGE s3 m4 = true) ∧
       smp3Success K s2 s3.msg
@@ -361,7 +413,7 @@ theorem smp_honest_run (isGE : Nat → Bool)
       smp4Success K s1 s3 m4
         = decide (gexp1 K (a2 * b2 * a3 * b3 * x) = gexp1 K (a2 * b2 * a3 * b3 * y)) := by
   intro s1 s2
-  refine ⟨?s3, ?m4, ?g3, ?g4, ?pow, ?ver, ?suc3, ?suc4⟩
+  refine ⟨?s3, ?m4, ?g3, ?g4, ?pow, ?lt, ?ver, ?suc3, ?suc4⟩
   case g3 =>
     simp only [s1, s2, smp1Gen, smp2Gen, smp3Gen, generateZKP, gexp_gexp1 A, mulModP_gexp1 A,
       divModP_gexp1_subQ A, Res.bind_ok, Res.pure_eq]
@@ -376,17 +428,36 @@ theorem smp_honest_run (isGE : Nat → Bool)
     split_ands <;> first
       | trivial
       | (apply gexp1_congr' A; push_cast [cast_subModQ, cast_subQ]; ring)
+  case lt =>
+    simp only [s1, s2, smpExponents, smp1Gen, smp2Gen, generateZKP, List.mem_cons,
+      forall_eq_or_imp, List.not_mem_nil, false_imp_iff, implies_true, and_true]
+    split_ands <;> exact subModQ_lt _ _
   case ver =>
-    intro hT
+    intro hT hE
     simp only [s1, s2, smpTransmitted, smp1Gen, smp2Gen, generateZKP, gexp_gexp1 A,
       mulModP_gexp1 A, List.mem_cons, forall_eq_or_imp, List.not_mem_nil, false_imp_iff,
       implies_true, and_true] at hT
     obtain ⟨h1, h2, h3, h4, h5, h6, h7, h8, h9, h10⟩ := hT
+    simp only [s1, s2, smpExponents, smp1Gen, smp2Gen, generateZKP, gexp_gexp1 A,
+      mulModP_gexp1 A, List.mem_cons, forall_eq_or_imp,
+      List.not_mem_nil, false_imp_iff, implies_true, and_true] at hE
+    obtain ⟨e1, e2, e3, e4, e5, e6, e7, e8, e9, e10⟩ := hE
+    replace e1 := isExponent_subModQ e1
+    replace e2 := isExponent_subModQ e2
+    replace e3 := isExponent_subModQ e3
+    replace e4 := isExponent_subModQ e4
+    replace e5 := isExponent_subModQ e5
+    replace e6 := isExponent_subModQ e6
+    replace e7 := isExponent_subModQ e7
+    replace e8 := isExponent_subModQ e8
+    replace e9 := isExponent_subModQ e9
+    replace e10 := isExponent_subModQ e10
     rw [smp3Verify_ok_true_iff]
     simp only [s1, s2, smp1Gen, smp2Gen, generateZKP, smp1Verify, smp2Verify,
       smp4Verify, verifyZKP, verifyZKP2, verifyZKP4,
       gexp_gexp1 A, mulModP_gexp1 A, mul3_gexp1 A, divModP_gexp1_subQ A,
-      h1, h2, h3, h4, h5, h6, h7, h8, h9, h10, Bool.and_true, Bool.true_and, Bool.and_eq_true,
+      h1, h2, h3, h4, h5, h6, h7, h8, h9, h10, e1, e2, e3, e4, e5, e6, e7, e8, e9, e10,
+      Bool.and_true, Bool.true_and, Bool.and_eq_true,
       beq_iff_eq, Res.ok.injEq, exists_eq_left', true_and]
     refine ⟨⟨?_, ?_⟩, ⟨⟨?_, ?_⟩, ?_⟩, ⟨?_, ?_⟩, ?_⟩
     all_goals first
@@ -429,7 +500,10 @@ theorem isGroupElement_gexp1_iff (e : Nat) :
 
 /-- **C11, equal secrets.**  An honest complete run in which both sides use the same secret `x`
 never panics and, as soon as the group-membership predicate `isGE` accepts the ten transmitted group
-elements, passes every verification and reports success on both sides. -/
+elements and the ten transmitted proof exponents (`smpExponents`, each automatically `< q`) are
+nonzero, passes every verification and reports success on both sides.  The exponent hypothesis
+excludes an event of probability ≈ 10·2^-1535 (an honest `d = r - a·c mod q` equal to 0), in which
+the library (like libotr) rejects an honest message because of the range check 1 ≤ d < q. -/
 theorem c11_equal_success (isGE : Nat → Bool)
     (x a2 a3 r2 r3 b2 b3 r2' r3' r4 r5 r6 r4' r5' r6' r7 r7' : Nat) :
     let s1 := smp1Gen K a2 a3 r2 r3
@@ -437,43 +511,51 @@ theorem c11_equal_success (isGE : Nat → Bool)
     ∃ s3 m4, smp3Gen K x s1 s2.msg r4' r5' r6' r7 = .ok s3 ∧
       smp4Gen K s2 s3.msg r7' = .ok m4 ∧
       ((∀ n ∈ smpTransmitted s1 s2 s3 m4, isGE n = true) →
+        (∀ d ∈ smpExponents s1 s2 s3 m4, 1 ≤ d) →
         smp1Verify K isGE s1.msg = true ∧ smp2Verify K isGE s1 s2.msg = true ∧
         smp3Verify K isGE s2 s3.msg = .ok true ∧ smp3Success K s2 s3.msg = .ok true ∧
         smp4Verify K isGE s3 m4 = true ∧ smp4Success K s1 s3 m4 = true) := by
   intro s1 s2
-  obtain ⟨s3, m4, h3, h4, _, hv, hs3, hs4⟩ :=
+  obtain ⟨s3, m4, h3, h4, _, _, hv, hs3, hs4⟩ :=
     smp_honest_run A isGE x x a2 a3 r2 r3 b2 b3 r2' r3' r4 r5 r6 r4' r5' r6' r7 r7'
-  refine ⟨s3, m4, h3, h4, fun hT => ?_⟩
-  obtain ⟨v1, v2, v3, v4⟩ := hv hT
+  refine ⟨s3, m4, h3, h4, fun hT hE => ?_⟩
+  obtain ⟨v1, v2, v3, v4⟩ := hv hT hE
   refine ⟨v1, v2, v3, ?_, v4, ?_⟩
   · rw [hs3, decide_eq_true rfl]
   · rw [hs4, decide_eq_true rfl]
 
-/-- C11, equal secrets, OTRv2 predicate (`n % p ≠ 0`): unconditional. -/
+/-- C11, equal secrets, OTRv2 predicate (`n % p ≠ 0`): no condition on the group elements; the only
+hypothesis is that the ten transmitted proof exponents are nonzero (see `c11_equal_success`: this
+excludes the probability-2^-1535 event in which the range check rejects an honest message). -/
 theorem c11_equal_success_v2
     (x a2 a3 r2 r3 b2 b3 r2' r3' r4 r5 r6 r4' r5' r6' r7 r7' : Nat) :
     let s1 := smp1Gen K a2 a3 r2 r3
     let s2 := smp2Gen K x s1.msg b2 b3 r2' r3' r4 r5 r6
     ∃ s3 m4, smp3Gen K x s1 s2.msg r4' r5' r6' r7 = .ok s3 ∧
       smp4Gen K s2 s3.msg r7' = .ok m4 ∧
-      smp1Verify K isGEv2 s1.msg = true ∧ smp2Verify K isGEv2 s1 s2.msg = true ∧
-      smp3Verify K isGEv2 s2 s3.msg = .ok true ∧ smp3Success K s2 s3.msg = .ok true ∧
-      smp4Verify K isGEv2 s3 m4 = true ∧ smp4Success K s1 s3 m4 = true := by
+      ((∀ d ∈ smpExponents s1 s2 s3 m4, 1 ≤ d) →
+        smp1Verify K isGEv2 s1.msg = true ∧ smp2Verify K isGEv2 s1 s2.msg = true ∧
+        smp3Verify K isGEv2 s2 s3.msg = .ok true ∧ smp3Success K s2 s3.msg = .ok true ∧
+        smp4Verify K isGEv2 s3 m4 = true ∧ smp4Success K s1 s3 m4 = true) := by
   intro s1 s2
-  obtain ⟨s3, m4, h3, h4, hpow, hv, hs3, hs4⟩ :=
+  obtain ⟨s3, m4, h3, h4, hpow, _, hv, hs3, hs4⟩ :=
     smp_honest_run A isGEv2 x x a2 a3 r2 r3 b2 b3 r2' r3' r4 r5 r6 r4' r5' r6' r7 r7'
   have hT : ∀ n ∈ smpTransmitted s1 s2 s3 m4, isGEv2 n = true := by
     intro n hn
     rw [hpow, List.mem_map] at hn
     obtain ⟨e, _, rfl⟩ := hn
     exact isGEv2_gexp1 A e
-  obtain ⟨v1, v2, v3, v4⟩ := hv hT
-  refine ⟨s3, m4, h3, h4, v1, v2, v3, ?_, v4, ?_⟩
+  refine ⟨s3, m4, h3, h4, fun hE => ?_⟩
+  obtain ⟨v1, v2, v3, v4⟩ := hv hT hE
+  refine ⟨v1, v2, v3, ?_, v4, ?_⟩
   · rw [hs3, decide_eq_true rfl]
   · rw [hs4, decide_eq_true rfl]
 
 /-- C11, equal secrets, OTRv3 predicate `isGroupElement` (2 ≤ n ≤ p-2): holds whenever none of the
-ten transmitted group elements is 1 or p-1 (they are powers of 2 mod p, so never 0 and always < p). -/
+ten transmitted group elements is 1 or p-1 (they are powers of 2 mod p, so never 0 and always < p)
+and none of the ten transmitted proof exponents is 0 (see `c11_equal_success`; both side conditions
+exclude events of probability ≈ 2^-1535 in which the library, like libotr, rejects an honest
+message). -/
 theorem c11_equal_success_v3
     (x a2 a3 r2 r3 b2 b3 r2' r3' r4 r5 r6 r4' r5' r6' r7 r7' : Nat) :
     let s1 := smp1Gen K a2 a3 r2 r3
@@ -481,20 +563,21 @@ theorem c11_equal_success_v3
     ∃ s3 m4, smp3Gen K x s1 s2.msg r4' r5' r6' r7 = .ok s3 ∧
       smp4Gen K s2 s3.msg r7' = .ok m4 ∧
       ((∀ n ∈ smpTransmitted s1 s2 s3 m4, n ≠ 1 ∧ n ≠ dhP - 1) →
+        (∀ d ∈ smpExponents s1 s2 s3 m4, 1 ≤ d) →
         smp1Verify K isGroupElement s1.msg = true ∧ smp2Verify K isGroupElement s1 s2.msg = true ∧
         smp3Verify K isGroupElement s2 s3.msg = .ok true ∧ smp3Success K s2 s3.msg = .ok true ∧
         smp4Verify K isGroupElement s3 m4 = true ∧ smp4Success K s1 s3 m4 = true) := by
   intro s1 s2
-  obtain ⟨s3, m4, h3, h4, hpow, hv, hs3, hs4⟩ :=
+  obtain ⟨s3, m4, h3, h4, hpow, _, hv, hs3, hs4⟩ :=
     smp_honest_run A isGroupElement x x a2 a3 r2 r3 b2 b3 r2' r3' r4 r5 r6 r4' r5' r6' r7 r7'
-  refine ⟨s3, m4, h3, h4, fun hR => ?_⟩
+  refine ⟨s3, m4, h3, h4, fun hR hE => ?_⟩
   have hT : ∀ n ∈ smpTransmitted s1 s2 s3 m4, isGroupElement n = true := by
     intro n hn
     have hn' := hn
     rw [hpow, List.mem_map] at hn'
     obtain ⟨e, _, rfl⟩ := hn'
     exact (isGroupElement_gexp1_iff A e).mpr (hR _ hn)
-  obtain ⟨v1, v2, v3, v4⟩ := hv hT
+  obtain ⟨v1, v2, v3, v4⟩ := hv hT hE
   refine ⟨v1, v2, v3, ?_, v4, ?_⟩
   · rw [hs3, decide_eq_true rfl]
   · rw [hs4, decide_eq_true rfl]
@@ -557,7 +640,7 @@ theorem c11_unequal_fail (hp : Nat.Prime dhP) (hqp : Nat.Prime dhQ)
       smp4Gen K s2 s3.msg r7' = .ok m4 ∧
       smp3Success K s2 s3.msg = .ok false ∧ smp4Success K s1 s3 m4 = false := by
   intro s1 s2
-  obtain ⟨s3, m4, h3, h4, _, _, hs3, hs4⟩ :=
+  obtain ⟨s3, m4, h3, h4, _, _, _, hs3, hs4⟩ :=
     smp_honest_run A (fun _ => true) x y a2 a3 r2 r3 b2 b3 r2' r3' r4 r5 r6 r4' r5' r6' r7 r7'
   have hne : ¬ gexp1 K (a2 * b2 * a3 * b3 * x) = gexp1 K (a2 * b2 * a3 * b3 * y) := by
     intro h
@@ -691,7 +774,7 @@ theorem smp3Gen_no_panic (hp : Nat.Prime dhP) (isGE : Nat → Bool)
     ∃ s3, smp3Gen K x s1 m2 r4 r5 r6 r7 = .ok s3 := by
   unfold smp2Verify at hv
   simp only [Bool.and_eq_true] at hv
-  obtain ⟨⟨⟨⟨⟨⟨_, _⟩, hpb⟩, hqb⟩, _⟩, _⟩, _⟩ := hv
+  obtain ⟨⟨⟨⟨⟨⟨⟨_, _⟩, hpb⟩, hqb⟩, _⟩, _⟩, _⟩, _⟩ := hv
   unfold smp3Gen
   obtain ⟨v1, h1⟩ := divModP_ok_of_ne_zero A hp
     (mulModP (gexp1 K r4) (K.gexp (K.gexp m2.g2b s1.a2) x)) (hGE _ hqb)
@@ -722,7 +805,9 @@ theorem smp3_no_panic_of_state (hp : Nat.Prime dhP) (isGE : Nat → Bool) (s2 : 
     simp only [h1, Res.bind_ok, Res.pure_eq]
     split
     · exact ⟨_, rfl⟩
-    · split <;> exact ⟨_, rfl⟩
+    · split
+      · exact ⟨_, rfl⟩
+      · split <;> exact ⟨_, rfl⟩
   · unfold smp3Success
     simp only [h2, Res.bind_ok, Res.pure_eq]
     exact ⟨_, rfl⟩
@@ -743,7 +828,7 @@ theorem c12_no_panic_responder (hp : Nat.Prime dhP) (isGE : Nat → Bool)
   intro s2
   unfold smp1Verify at hv
   simp only [Bool.and_eq_true] at hv
-  obtain ⟨⟨⟨h2, h3⟩, _⟩, _⟩ := hv
+  obtain ⟨⟨⟨⟨h2, h3⟩, _⟩, _⟩, _⟩ := hv
   obtain ⟨hpb, hqb⟩ := smp2Gen_pb_qb_ne_zero A hp y m1 (hGE _ h2) (hGE _ h3) b2 b3 r2 r3 r4 r5 r6
   exact smp3_no_panic_of_state A hp isGE s2 hpb hqb m r7
 
@@ -768,6 +853,134 @@ theorem c12_success_guard4 (s1 : Smp1State) (s3 : Smp3State) (m : Smp4Msg) :
   unfold smp4Success; exact beq_iff_eq
 
 end NoPanic
+
+/-! ## C12: out-of-range proof exponents are rejected (no arithmetic, any `K`, any `isGE`)
+
+The repaired code checks `1 ≤ d < q` (`isExponent`) for every zero-knowledge-proof exponent of a
+received SMP message before it evaluates the proof.  Messages 1, 2 and 4: the verification returns
+false.  Message 3: `smp3Verify` checks the group elements first, then the exponents, then the proofs
+and only then calls `divModP`; a message with an out-of-range exponent therefore yields `.ok false`
+(never `.ok true`, and never a panic: the early return precedes the only partial operation). -/
+
+section ExponentRange
+variable (K : Crypto) (isGE : Nat → Bool)
+
+theorem c12_exponent_out_of_range_rejected_1 (m : Smp1Msg)
+    (h : isExponent m.d2 = false ∨ isExponent m.d3 = false) :
+    smp1Verify K isGE m = false := by
+  unfold smp1Verify
+  rcases h with h | h <;>
+    simp only [h, Bool.and_false, Bool.false_and]
+
+theorem c12_exponent_out_of_range_rejected_2 (s1 : Smp1State) (m : Smp2Msg)
+    (h : isExponent m.d2 = false ∨ isExponent m.d3 = false ∨
+      isExponent m.d5 = false ∨ isExponent m.d6 = false) :
+    smp2Verify K isGE s1 m = false := by
+  unfold smp2Verify
+  rcases h with h | h | h | h <;>
+    simp only [h, Bool.and_false, Bool.false_and]
+
+theorem c12_exponent_out_of_range_rejected_3 (s2 : Smp2State) (m : Smp3Msg)
+    (h : isExponent m.d5 = false ∨ isExponent m.d6 = false ∨ isExponent m.d7 = false) :
+    smp3Verify K isGE s2 m = .ok false := by
+  have he : (isExponent m.d5 && isExponent m.d6 && isExponent m.d7) = false := by
+    rcases h with h | h | h <;> simp only [h, Bool.and_false, Bool.false_and]
+  unfold smp3Verify
+  cases h1 : (isGE m.pa && isGE m.qa && isGE m.ra) <;> simp [he]
+
+theorem c12_exponent_out_of_range_rejected_4 (s3 : Smp3State) (m : Smp4Msg)
+    (h : isExponent m.d7 = false) :
+    smp4Verify K isGE s3 m = false := by
+  unfold smp4Verify
+  simp only [h, Bool.and_false, Bool.false_and]
+
+/-- In particular no out-of-range exponent is compatible with acceptance: every accepted message has
+all its proof exponents in [1, q). -/
+theorem smp1Verify_exponents (m : Smp1Msg) (h : smp1Verify K isGE m = true) :
+    (1 ≤ m.d2 ∧ m.d2 < dhQ) ∧ (1 ≤ m.d3 ∧ m.d3 < dhQ) := by
+  unfold smp1Verify at h
+  simp only [Bool.and_eq_true, isExponent_iff] at h
+  exact h.1.1.2
+
+theorem smp2Verify_exponents (s1 : Smp1State) (m : Smp2Msg) (h : smp2Verify K isGE s1 m = true) :
+    (1 ≤ m.d2 ∧ m.d2 < dhQ) ∧ (1 ≤ m.d3 ∧ m.d3 < dhQ) ∧
+    (1 ≤ m.d5 ∧ m.d5 < dhQ) ∧ (1 ≤ m.d6 ∧ m.d6 < dhQ) := by
+  unfold smp2Verify at h
+  simp only [Bool.and_eq_true, isExponent_iff] at h
+  obtain ⟨⟨⟨⟨_, ⟨⟨⟨e2, e3⟩, e5⟩, e6⟩⟩, _⟩, _⟩, _⟩ := h
+  exact ⟨e2, e3, e5, e6⟩
+
+theorem smp3Verify_exponents (s2 : Smp2State) (m : Smp3Msg)
+    (h : smp3Verify K isGE s2 m = .ok true) :
+    (1 ≤ m.d5 ∧ m.d5 < dhQ) ∧ (1 ≤ m.d6 ∧ m.d6 < dhQ) ∧ (1 ≤ m.d7 ∧ m.d7 < dhQ) := by
+  have he := ((smp3Verify_ok_true_iff K isGE s2 m).mp h).2.1
+  simp only [Bool.and_eq_true, isExponent_iff] at he
+  exact ⟨he.1.1, he.1.2, he.2⟩
+
+theorem smp4Verify_exponents (s3 : Smp3State) (m : Smp4Msg) (h : smp4Verify K isGE s3 m = true) :
+    1 ≤ m.d7 ∧ m.d7 < dhQ := by
+  unfold smp4Verify at h
+  simp only [Bool.and_eq_true, isExponent_iff] at h
+  exact h.1.2
+
+/-- The typical malleation `d ↦ d + q` (same residue, so the proof equation still holds for a base
+of order q) and the degenerate `d = 0` are rejected in every position of every message. -/
+theorem c12_exponent_plus_q_rejected_1 (m : Smp1Msg) :
+    smp1Verify K isGE { m with d2 := m.d2 + dhQ } = false ∧
+    smp1Verify K isGE { m with d3 := m.d3 + dhQ } = false :=
+  ⟨c12_exponent_out_of_range_rejected_1 K isGE _ (Or.inl (isExponent_add_dhQ _)),
+   c12_exponent_out_of_range_rejected_1 K isGE _ (Or.inr (isExponent_add_dhQ _))⟩
+
+theorem c12_exponent_plus_q_rejected_2 (s1 : Smp1State) (m : Smp2Msg) :
+    smp2Verify K isGE s1 { m with d2 := m.d2 + dhQ } = false ∧
+    smp2Verify K isGE s1 { m with d3 := m.d3 + dhQ } = false ∧
+    smp2Verify K isGE s1 { m with d5 := m.d5 + dhQ } = false ∧
+    smp2Verify K isGE s1 { m with d6 := m.d6 + dhQ } = false :=
+  ⟨c12_exponent_out_of_range_rejected_2 K isGE s1 _ (Or.inl (isExponent_add_dhQ _)),
+   c12_exponent_out_of_range_rejected_2 K isGE s1 _ (Or.inr (Or.inl (isExponent_add_dhQ _))),
+   c12_exponent_out_of_range_rejected_2 K isGE s1 _ (Or.inr (Or.inr (Or.inl (isExponent_add_dhQ _)))),
+   c12_exponent_out_of_range_rejected_2 K isGE s1 _ (Or.inr (Or.inr (Or.inr (isExponent_add_dhQ _))))⟩
+
+theorem c12_exponent_plus_q_rejected_3 (s2 : Smp2State) (m : Smp3Msg) :
+    smp3Verify K isGE s2 { m with d5 := m.d5 + dhQ } = .ok false ∧
+    smp3Verify K isGE s2 { m with d6 := m.d6 + dhQ } = .ok false ∧
+    smp3Verify K isGE s2 { m with d7 := m.d7 + dhQ } = .ok false :=
+  ⟨c12_exponent_out_of_range_rejected_3 K isGE s2 _ (Or.inl (isExponent_add_dhQ _)),
+   c12_exponent_out_of_range_rejected_3 K isGE s2 _ (Or.inr (Or.inl (isExponent_add_dhQ _))),
+   c12_exponent_out_of_range_rejected_3 K isGE s2 _ (Or.inr (Or.inr (isExponent_add_dhQ _)))⟩
+
+theorem c12_exponent_plus_q_rejected_4 (s3 : Smp3State) (m : Smp4Msg) :
+    smp4Verify K isGE s3 { m with d7 := m.d7 + dhQ } = false :=
+  c12_exponent_out_of_range_rejected_4 K isGE s3 _ (isExponent_add_dhQ _)
+
+theorem c12_exponent_zero_rejected_1 (m : Smp1Msg) :
+    smp1Verify K isGE { m with d2 := 0 } = false ∧ smp1Verify K isGE { m with d3 := 0 } = false :=
+  ⟨c12_exponent_out_of_range_rejected_1 K isGE _ (Or.inl isExponent_zero),
+   c12_exponent_out_of_range_rejected_1 K isGE _ (Or.inr isExponent_zero)⟩
+
+theorem c12_exponent_zero_rejected_2 (s1 : Smp1State) (m : Smp2Msg) :
+    smp2Verify K isGE s1 { m with d2 := 0 } = false ∧
+    smp2Verify K isGE s1 { m with d3 := 0 } = false ∧
+    smp2Verify K isGE s1 { m with d5 := 0 } = false ∧
+    smp2Verify K isGE s1 { m with d6 := 0 } = false :=
+  ⟨c12_exponent_out_of_range_rejected_2 K isGE s1 _ (Or.inl isExponent_zero),
+   c12_exponent_out_of_range_rejected_2 K isGE s1 _ (Or.inr (Or.inl isExponent_zero)),
+   c12_exponent_out_of_range_rejected_2 K isGE s1 _ (Or.inr (Or.inr (Or.inl isExponent_zero))),
+   c12_exponent_out_of_range_rejected_2 K isGE s1 _ (Or.inr (Or.inr (Or.inr isExponent_zero)))⟩
+
+theorem c12_exponent_zero_rejected_3 (s2 : Smp2State) (m : Smp3Msg) :
+    smp3Verify K isGE s2 { m with d5 := 0 } = .ok false ∧
+    smp3Verify K isGE s2 { m with d6 := 0 } = .ok false ∧
+    smp3Verify K isGE s2 { m with d7 := 0 } = .ok false :=
+  ⟨c12_exponent_out_of_range_rejected_3 K isGE s2 _ (Or.inl isExponent_zero),
+   c12_exponent_out_of_range_rejected_3 K isGE s2 _ (Or.inr (Or.inl isExponent_zero)),
+   c12_exponent_out_of_range_rejected_3 K isGE s2 _ (Or.inr (Or.inr isExponent_zero))⟩
+
+theorem c12_exponent_zero_rejected_4 (s3 : Smp3State) (m : Smp4Msg) :
+    smp4Verify K isGE s3 { m with d7 := 0 } = false :=
+  c12_exponent_out_of_range_rejected_4 K isGE s3 _ isExponent_zero
+
+end ExponentRange
 
 /-! ## Completeness of the composite proofs for arbitrary bases in the order-q subgroup
 
@@ -1100,16 +1313,18 @@ example : Crypto.real.ArithOK := Crypto.real_arithOK
 example : 2 ^ dhQ % dhP = 1 := two_pow_dhQ
 example : dhP % 2 = 1 := dhP_odd
 
-/-- `c11_equal_success_v2` at the executable instance: no hypotheses left. -/
+/-- `c11_equal_success_v2` at the executable instance: the only hypothesis left is that the ten
+transmitted proof exponents are nonzero. -/
 example (x a2 a3 r2 r3 b2 b3 r2' r3' r4 r5 r6 r4' r5' r6' r7 r7' : Nat) :
     let s1 := smp1Gen Crypto.real a2 a3 r2 r3
     let s2 := smp2Gen Crypto.real x s1.msg b2 b3 r2' r3' r4 r5 r6
     ∃ s3 m4, smp3Gen Crypto.real x s1 s2.msg r4' r5' r6' r7 = .ok s3 ∧
       smp4Gen Crypto.real s2 s3.msg r7' = .ok m4 ∧
-      smp1Verify Crypto.real isGEv2 s1.msg = true ∧ smp2Verify Crypto.real isGEv2 s1 s2.msg = true ∧
-      smp3Verify Crypto.real isGEv2 s2 s3.msg = .ok true ∧
-      smp3Success Crypto.real s2 s3.msg = .ok true ∧
-      smp4Verify Crypto.real isGEv2 s3 m4 = true ∧ smp4Success Crypto.real s1 s3 m4 = true :=
+      ((∀ d ∈ smpExponents s1 s2 s3 m4, 1 ≤ d) →
+        smp1Verify Crypto.real isGEv2 s1.msg = true ∧ smp2Verify Crypto.real isGEv2 s1 s2.msg = true ∧
+        smp3Verify Crypto.real isGEv2 s2 s3.msg = .ok true ∧
+        smp3Success Crypto.real s2 s3.msg = .ok true ∧
+        smp4Verify Crypto.real isGEv2 s3 m4 = true ∧ smp4Success Crypto.real s1 s3 m4 = true) :=
   c11_equal_success_v2 Crypto.real_arithOK x a2 a3 r2 r3 b2 b3 r2' r3' r4 r5 r6 r4' r5' r6' r7 r7'
 
 /-- The range hypothesis of `c11_equal_success_v3` is satisfiable: with all exponents 1 except the
@@ -1139,6 +1354,46 @@ example :
   simp only [Nat.reduceMul, Nat.reduceAdd, small 1 (by omega), small 2 (by omega),
     small 3 (by omega), Nat.reducePow]
   omega
+
+/-- The exponent hypothesis `∀ d ∈ smpExponents …, 1 ≤ d` of `smp_honest_run` / `c11_equal_success*`
+is satisfiable together with the range hypothesis of `c11_equal_success_v3`: in the run of the
+previous example at the executable instance (real SHA-256 and 1536-bit arithmetic, evaluated by the
+kernel) no transmitted element is 1 or p-1 and all ten transmitted proof exponents are nonzero. -/
+example :
+    ∃ s3 m4,
+      smp3Gen Crypto.real 1 (smp1Gen Crypto.real 1 1 1 1)
+        (smp2Gen Crypto.real 1 (smp1Gen Crypto.real 1 1 1 1).msg 1 1 1 1 1 1 1).msg 2 1 1 1 = .ok s3 ∧
+      smp4Gen Crypto.real (smp2Gen Crypto.real 1 (smp1Gen Crypto.real 1 1 1 1).msg 1 1 1 1 1 1 1)
+        s3.msg 1 = .ok m4 ∧
+      (∀ n ∈ smpTransmitted (smp1Gen Crypto.real 1 1 1 1)
+        (smp2Gen Crypto.real 1 (smp1Gen Crypto.real 1 1 1 1).msg 1 1 1 1 1 1 1) s3 m4,
+        n ≠ 1 ∧ n ≠ dhP - 1) ∧
+      (∀ d ∈ smpExponents (smp1Gen Crypto.real 1 1 1 1)
+        (smp2Gen Crypto.real 1 (smp1Gen Crypto.real 1 1 1 1).msg 1 1 1 1 1 1 1) s3 m4, 1 ≤ d) := by
+  have key : (match smp3Gen Crypto.real 1 (smp1Gen Crypto.real 1 1 1 1)
+        (smp2Gen Crypto.real 1 (smp1Gen Crypto.real 1 1 1 1).msg 1 1 1 1 1 1 1).msg 2 1 1 1 with
+      | .ok s3 =>
+        (match smp4Gen Crypto.real
+            (smp2Gen Crypto.real 1 (smp1Gen Crypto.real 1 1 1 1).msg 1 1 1 1 1 1 1) s3.msg 1 with
+        | .ok m4 =>
+          (smpTransmitted (smp1Gen Crypto.real 1 1 1 1)
+            (smp2Gen Crypto.real 1 (smp1Gen Crypto.real 1 1 1 1).msg 1 1 1 1 1 1 1) s3 m4).all
+              (fun n => decide (n ≠ 1 ∧ n ≠ dhP - 1)) &&
+          (smpExponents (smp1Gen Crypto.real 1 1 1 1)
+            (smp2Gen Crypto.real 1 (smp1Gen Crypto.real 1 1 1 1).msg 1 1 1 1 1 1 1) s3 m4).all
+              (fun d => decide (1 ≤ d))
+        | .panic _ => false)
+      | .panic _ => false) = true := by decide +kernel
+  split at key
+  · rename_i s3 h3
+    split at key
+    · rename_i m4 h4
+      rw [Bool.and_eq_true, List.all_eq_true, List.all_eq_true] at key
+      refine ⟨s3, m4, h3, h4, fun n hn => ?_, fun d hd => ?_⟩
+      · exact of_decide_eq_true (key.1 n hn)
+      · exact of_decide_eq_true (key.2 d hd)
+    · cases key
+  · cases key
 
 /-- The side conditions of `c11_unequal_fail` on exponents and secrets are satisfiable (its other two
 hypotheses, primality of `dhP` and `dhQ`, are true but not provable by computation here). -/
